@@ -3,7 +3,9 @@ package c19
 // changed.go — table (f): every place where a command asks pflag whether an option was GIVEN
 // instead of reading its value: `<x>.Flags().Changed("name")`, `<x>.PersistentFlags().Changed(…)`,
 // `<x>.Flag("name").Changed`, `<x>.Flags().Lookup("name").Changed`, inside the function literals of
-// a command or the helpers they call.  Each is a place where "option omitted" and "documented
+// a command or the helpers they call — and, since round 7, the other ways of learning it: Flags().NFlag(),
+// Flags().Visit(…), os.Args, cobra's MarkFlagRequired / MarkFlags… groups, DisableFlagParsing, and the
+// environment (os.Getenv …) — reported under the name of the call.  Each is a place where "option omitted" and "documented
 // default spelled out" can part ways whatever the flag table says (F45, F55, repopulate).
 // Regenerated into lean/Gotree/Gen/C19Changed.lean; Proofs/C19.lean decides that every site is
 // accounted for by a model of that command's cascade or a recorded finding.
@@ -63,13 +65,36 @@ func changedSites(repo string) (out []changedSite, problems []string) {
 			if se, ok := x.Fun.(*ast.SelectorExpr); ok && se.Sel.Name == "Changed" && len(x.Args) == 1 {
 				return lit(x.Args[0]), true
 			}
+			// the other ways of learning which options were GIVEN (or of making one mandatory / exclusive):
+			// reported under the name of the call, which no model accounts for
+			if se, ok := x.Fun.(*ast.SelectorExpr); ok {
+				switch se.Sel.Name {
+				case "NFlag", "Visit", "MarkFlagRequired", "MarkPersistentFlagRequired", "MarkFlagsMutuallyExclusive",
+					"MarkFlagsRequiredTogether", "MarkFlagsOneRequired":
+					return "(" + se.Sel.Name + ")", true
+				case "Getenv", "LookupEnv", "Environ":
+					if pk, ok := se.X.(*ast.Ident); ok && pk.Name == "os" {
+						return "(os." + se.Sel.Name + ")", true // the environment feeding an option: "omitted" is then not the documented default
+					}
+				}
+			}
+		case *ast.KeyValueExpr: // DisableFlagParsing: true in a command literal
+			if k, ok := x.Key.(*ast.Ident); ok && k.Name == "DisableFlagParsing" {
+				return "(DisableFlagParsing)", true
+			}
 		case *ast.SelectorExpr: // ….Flag("name").Changed / ….Lookup("name").Changed   (field, not call)
+			if pk, ok := x.X.(*ast.Ident); ok && pk.Name == "os" && x.Sel.Name == "Args" {
+				return "(os.Args)", true
+			}
 			if x.Sel.Name == "Changed" {
 				if call, ok := x.X.(*ast.CallExpr); ok {
 					if se, ok := call.Fun.(*ast.SelectorExpr); ok && (se.Sel.Name == "Flag" || se.Sel.Name == "Lookup") && len(call.Args) == 1 {
 						return lit(call.Args[0]), true
 					}
 				}
+				// the field read off a *pflag.Flag held in a variable (`f.Changed` inside VisitAll, …): which flag it
+				// is cannot be told syntactically
+				return "(.Changed)", true
 			}
 		}
 		return "", false
